@@ -81,7 +81,18 @@ def build_pool(c, schema, plan):
         elif kind == "syntax":
             r["query"] = c18.mutate_tokens(c, r0["query"]) + c.choice(["", " {", "}"])
         elif kind == "other_vars":
-            r["variables"] = dict(r0["variables"] or {}, zzExtra=c.int(0, 9))
+            # the same text with really different values for its declared variables (and fresh data)
+            from tfv.gen import DocGen
+
+            ops = [d for d in spec["doc"]["defs"] if d["k"] == "op"]
+            op = next((d for d in ops if d.get("name") == r0["op"]), ops[0])
+            dg = DocGen(c, schema)
+            dg.vars = {v["name"]: dict(v, must_provide=True, nn_use=True) for v in op.get("vars") or ()}
+            spec2 = dict(spec, variables=dg.variable_values(op), tree=None)
+            if c.maybe(30):
+                spec2["variables"]["zzExtra"] = c.int(0, 9)
+            c01.reference(spec2, c)
+            r["variables"], r["tree"] = spec2["variables"], spec2["tree"]
         elif kind == "bytes":
             r["query"] = {"$bytes": r0["query"].encode("utf-8").hex()}
         elif kind == "faulty":
